@@ -38,6 +38,7 @@ MANIFEST_TEXT = {
 
 TYPES_GEN = {"support": "harness/c11/support_types.go", "skip": ["elementLeaf", "V2Block", "V2BlockData", "V2TransactionsMultiproof"]}
 BIG_T = "_(Transaction|V1Block|V2Transaction)$"
+CONS_GEN = {"support": "harness/c11/support_consensus.go", "skip": ["elementLeaf"]}
 
 PROPS["C11"] = {
     "runs": [
@@ -45,6 +46,8 @@ PROPS["C11"] = {
          "flags": {"quick": ["-maxpaths", "50000"], "thorough": ["-maxpaths", "50000"]},
          "tv_harnesses": ["VH_C11_RT_SiacoinElement", "VH_C11_RT_FileContract", "VH_C11_RT_V2FileContractResolution", "VH_C11_RT_Transaction", "VH_C11_RT_V2Transaction", "VH_C11_RT_SpendPolicy"]},
         {"pkg": "types", "gen": TYPES_GEN, "run": "^VH_C11_TR_", "skip": BIG_T, "params": {"quick": {"n": 1}, "thorough": {"n": 1}}},
+        {"pkg": "consensus", "gen": CONS_GEN, "run": "^VH_C11_(RT|TR)_", "params": {"quick": {"n": 1}, "thorough": {"n": 2}},
+         "tv_harnesses": ["VH_C11_RT_State", "VH_C11_RT_V1TransactionSupplement"]},
         {"pkg": "types", "gen": TYPES_GEN, "run": "^VH_C11_RT_", "params": {"thorough": {"n": 0}}, "thorough_only": True},
         {"pkg": "types", "gen": TYPES_GEN, "run": "^VH_C11_RT_", "skip": "_(V1Block|Transaction)$", "params": {"thorough": {"n": 2}}, "flags": {"thorough": ["-maxpaths", "200000"]}, "thorough_only": True},
         {"pkg": "types", "gen": TYPES_GEN, "run": "^VH_C11_TR_(Transaction|V2Transaction)$", "params": {"thorough": {"n": 1}}, "flags": {"thorough": ["-maxpaths", "200000"]}, "thorough_only": True},
@@ -58,6 +61,7 @@ PROPS["C11"] = {
     "assumptions": COMMON_ASSUME + ["documented normalisations applied before comparison: StateElement.shared=false, v1 revision Payout = sentinel, V1Block.V2 = nil, nil == empty slice, times built with time.Unix(s,0)"],
 }
 
+C10_VH = ["harness/c10/c10_validate.go", "harness/common/cons_world.go", "harness/common/cons_support.go"]
 PROPS["C10"] = {
     "runs": [
         {"pkg": "types", "gen": TYPES_GEN, "run": "^VH_C10_DEC_", "skip": "_(SpendPolicy|SatisfiedPolicy|V2SiacoinInput|V2SiafundInput|V2Transaction|Transaction|V1Block)$",
@@ -72,9 +76,57 @@ PROPS["C10"] = {
         {"pkg": "types", "gen": TYPES_GEN, "run": "^VH_C10_DEC_V2Transaction$",
          "params": {"quick": {"N": 24, "alloc_limit": 255, "lazy_make": 1}, "thorough": {"N": 40, "alloc_limit": 255, "lazy_make": 1}},
          "flags": {"quick": ["-maxlen", "256", "-maxpaths", "200000"], "thorough": ["-maxlen", "256", "-maxpaths", "1000000"]}},
+        {"pkg": "consensus", "gen": CONS_GEN, "run": "^VH_C10_DEC_",
+         "params": {"quick": {"N": 40, "alloc_limit": 255, "lazy_make": 1}, "thorough": {"N": 64, "alloc_limit": 255, "lazy_make": 1}},
+         "flags": {"quick": ["-maxlen", "256", "-maxpaths", "200000"], "thorough": ["-maxlen", "256", "-maxpaths", "400000"]}},
+        {"pkg": "consensus", "harness": C10_VH, "run": "^VH_C10_ValidateV1$", "params": {"quick": {"mask": 643, "weight_uf": 1, "v1cur_fixed": 1, "tax_uf": 1, "spidx_uf": 1, "cflen": 1, "int_mode": 1, "cur_lift": 1}, "thorough": {"mask": 643, "weight_uf": 1, "v1cur_fixed": 1, "tax_uf": 1, "spidx_uf": 1, "cflen": 1, "int_mode": 1, "cur_lift": 1}},
+         "flags": {"quick": ["-timeout", "1000", "-maxpaths", "100000"], "thorough": ["-timeout", "1000", "-maxpaths", "400000"]},
+         "must_reach": {"VH_C10_ValidateV1": ["accepted", "applied", "rejected"]}},
+        {"pkg": "consensus", "harness": C10_VH, "run": "^VH_C10_ValidateV1$", "params": {"quick": {"mask": 519, "weight_uf": 1, "v1cur_fixed": 1, "tax_uf": 1, "spidx_uf": 1, "cflen": 1, "int_mode": 1, "cur_lift": 1}, "thorough": {"mask": 519, "weight_uf": 1, "v1cur_fixed": 1, "tax_uf": 1, "spidx_uf": 1, "cflen": 1, "int_mode": 1, "cur_lift": 1}},
+         "flags": {"quick": ["-timeout", "1000", "-maxpaths", "100000"], "thorough": ["-timeout", "1000", "-maxpaths", "400000"]},
+         "must_reach": {"VH_C10_ValidateV1": ["accepted", "applied", "rejected"]}},
+        {"pkg": "consensus", "harness": C10_VH, "run": "^VH_C10_ValidateV1$", "params": {"quick": {"mask": 769, "weight_uf": 1, "v1cur_fixed": 1, "tax_uf": 1, "spidx_uf": 1, "cflen": 1, "int_mode": 1, "cur_lift": 1}, "thorough": {"mask": 769, "weight_uf": 1, "v1cur_fixed": 1, "tax_uf": 1, "spidx_uf": 1, "cflen": 1, "int_mode": 1, "cur_lift": 1}},
+         "flags": {"quick": ["-timeout", "1000", "-maxpaths", "100000"], "thorough": ["-timeout", "1000", "-maxpaths", "400000"]},
+         "must_reach": {"VH_C10_ValidateV1": ["accepted", "applied", "rejected"]}},
+        {"pkg": "consensus", "harness": C10_VH, "run": "^VH_C10_ValidateV1$", "params": {"quick": {"mask": 16, "weight_uf": 1, "v1cur_fixed": 1, "tax_uf": 1, "spidx_uf": 1, "cflen": 1, "int_mode": 1, "cur_lift": 1}, "thorough": {"mask": 16, "weight_uf": 1, "v1cur_fixed": 1, "tax_uf": 1, "spidx_uf": 1, "cflen": 1, "int_mode": 1, "cur_lift": 1}},
+         "flags": {"quick": ["-timeout", "1000", "-maxpaths", "100000"], "thorough": ["-timeout", "1000", "-maxpaths", "400000"]},
+         "must_reach": {"VH_C10_ValidateV1": ["accepted", "applied", "rejected"]}},
+        {"pkg": "consensus", "harness": C10_VH, "run": "^VH_C10_ValidateV1$", "params": {"quick": {"mask": 521, "weight_uf": 1, "v1cur_fixed": 1, "tax_uf": 1, "spidx_uf": 1, "cflen": 1, "int_mode": 1, "cur_lift": 1}, "thorough": {"mask": 521, "weight_uf": 1, "v1cur_fixed": 1, "tax_uf": 1, "spidx_uf": 1, "cflen": 1, "int_mode": 1, "cur_lift": 1}},
+         "flags": {"quick": ["-timeout", "1000", "-maxpaths", "100000"], "thorough": ["-timeout", "1000", "-maxpaths", "400000"]},
+         "must_reach": {"VH_C10_ValidateV1": ["accepted", "applied", "rejected"]}, "thorough_only": True},
+        {"pkg": "consensus", "harness": C10_VH, "run": "^VH_C10_ValidateV1$", "params": {"quick": {"mask": 608, "weight_uf": 1, "v1cur_fixed": 1, "tax_uf": 1, "spidx_uf": 1, "cflen": 1, "int_mode": 1, "cur_lift": 1}, "thorough": {"mask": 608, "weight_uf": 1, "v1cur_fixed": 1, "tax_uf": 1, "spidx_uf": 1, "cflen": 1, "int_mode": 1, "cur_lift": 1}},
+         "flags": {"quick": ["-timeout", "1000", "-maxpaths", "100000"], "thorough": ["-timeout", "1000", "-maxpaths", "400000"]},
+         "must_reach": {"VH_C10_ValidateV1": ["accepted", "applied", "rejected"]}, "thorough_only": True},
+        {"pkg": "consensus", "harness": C10_VH, "run": "^VH_C10_ValidateV1$", "params": {"quick": {"mask": 611, "weight_uf": 1, "v1cur_fixed": 1, "tax_uf": 1, "spidx_uf": 1, "cflen": 1, "int_mode": 1, "cur_lift": 1}, "thorough": {"mask": 611, "weight_uf": 1, "v1cur_fixed": 1, "tax_uf": 1, "spidx_uf": 1, "cflen": 1, "int_mode": 1, "cur_lift": 1}},
+         "flags": {"quick": ["-timeout", "1000", "-maxpaths", "100000"], "thorough": ["-timeout", "1000", "-maxpaths", "400000"]},
+         "must_reach": {"VH_C10_ValidateV1": ["accepted", "applied", "rejected"]}, "thorough_only": True},
+        {"pkg": "consensus", "harness": C10_VH, "run": "^VH_C10_ValidateV2$", "params": {"quick": {"mask": 3, "weight_uf": 1, "v1cur_fixed": 1, "tax_uf": 1, "spidx_uf": 1, "cflen": 1, "int_mode": 1, "cur_lift": 1}, "thorough": {"mask": 3, "weight_uf": 1, "v1cur_fixed": 1, "tax_uf": 1, "spidx_uf": 1, "cflen": 1, "int_mode": 1, "cur_lift": 1}},
+         "flags": {"quick": ["-timeout", "1000", "-maxpaths", "100000"], "thorough": ["-timeout", "1000", "-maxpaths", "400000"]},
+         "must_reach": {"VH_C10_ValidateV2": ["accepted", "applied", "rejected"]}},
+        {"pkg": "consensus", "harness": C10_VH, "run": "^VH_C10_ValidateV2$", "params": {"quick": {"mask": 12, "weight_uf": 1, "v1cur_fixed": 1, "tax_uf": 1, "spidx_uf": 1, "cflen": 1, "int_mode": 1, "cur_lift": 1}, "thorough": {"mask": 12, "weight_uf": 1, "v1cur_fixed": 1, "tax_uf": 1, "spidx_uf": 1, "cflen": 1, "int_mode": 1, "cur_lift": 1}},
+         "flags": {"quick": ["-timeout", "1000", "-maxpaths", "100000"], "thorough": ["-timeout", "1000", "-maxpaths", "400000"]},
+         "must_reach": {"VH_C10_ValidateV2": ["accepted", "applied", "rejected"]}},
+        {"pkg": "consensus", "harness": C10_VH, "run": "^VH_C10_ValidateV2$", "params": {"quick": {"mask": 16, "weight_uf": 1, "v1cur_fixed": 1, "tax_uf": 1, "spidx_uf": 1, "cflen": 1, "int_mode": 1, "cur_lift": 1}, "thorough": {"mask": 16, "weight_uf": 1, "v1cur_fixed": 1, "tax_uf": 1, "spidx_uf": 1, "cflen": 1, "int_mode": 1, "cur_lift": 1}},
+         "flags": {"quick": ["-timeout", "1000", "-maxpaths", "100000"], "thorough": ["-timeout", "1000", "-maxpaths", "400000"]},
+         "must_reach": {"VH_C10_ValidateV2": ["accepted", "applied", "rejected"]}},
+        {"pkg": "consensus", "harness": C10_VH, "run": "^VH_C10_ValidateV2$", "params": {"quick": {"mask": 32, "weight_uf": 1, "v1cur_fixed": 1, "tax_uf": 1, "spidx_uf": 1, "cflen": 1, "int_mode": 1, "cur_lift": 1}, "thorough": {"mask": 32, "weight_uf": 1, "v1cur_fixed": 1, "tax_uf": 1, "spidx_uf": 1, "cflen": 1, "int_mode": 1, "cur_lift": 1}},
+         "flags": {"quick": ["-timeout", "1000", "-maxpaths", "100000"], "thorough": ["-timeout", "1000", "-maxpaths", "400000"]},
+         "must_reach": {"VH_C10_ValidateV2": ["accepted", "applied", "rejected"]}},
+        {"pkg": "consensus", "harness": C10_VH, "run": "^VH_C10_ValidateV2$", "params": {"quick": {"mask": 128, "weight_uf": 1, "v1cur_fixed": 1, "tax_uf": 1, "spidx_uf": 1, "cflen": 1, "int_mode": 1, "cur_lift": 1}, "thorough": {"mask": 128, "weight_uf": 1, "v1cur_fixed": 1, "tax_uf": 1, "spidx_uf": 1, "cflen": 1, "int_mode": 1, "cur_lift": 1}},
+         "flags": {"quick": ["-timeout", "1000", "-maxpaths", "100000"], "thorough": ["-timeout", "1000", "-maxpaths", "400000"]},
+         "must_reach": {"VH_C10_ValidateV2": ["accepted", "applied", "rejected"]}},
+        {"pkg": "consensus", "harness": C10_VH, "run": "^VH_C10_ValidateV2$", "params": {"quick": {"mask": 769, "weight_uf": 1, "v1cur_fixed": 1, "tax_uf": 1, "spidx_uf": 1, "cflen": 1, "int_mode": 1, "cur_lift": 1}, "thorough": {"mask": 769, "weight_uf": 1, "v1cur_fixed": 1, "tax_uf": 1, "spidx_uf": 1, "cflen": 1, "int_mode": 1, "cur_lift": 1}},
+         "flags": {"quick": ["-timeout", "1000", "-maxpaths", "100000"], "thorough": ["-timeout", "1000", "-maxpaths", "400000"]},
+         "must_reach": {"VH_C10_ValidateV2": ["accepted", "applied", "rejected"]}},
+        {"pkg": "consensus", "harness": C10_VH, "run": "^VH_C10_ValidateV2$", "params": {"quick": {"mask": 65, "weight_uf": 1, "v1cur_fixed": 1, "tax_uf": 1, "spidx_uf": 1, "cflen": 1, "int_mode": 1, "cur_lift": 1}, "thorough": {"mask": 65, "weight_uf": 1, "v1cur_fixed": 1, "tax_uf": 1, "spidx_uf": 1, "cflen": 1, "int_mode": 1, "cur_lift": 1}},
+         "flags": {"quick": ["-timeout", "1000", "-maxpaths", "100000"], "thorough": ["-timeout", "1000", "-maxpaths", "400000"]},
+         "must_reach": {"VH_C10_ValidateV2": ["accepted", "applied", "rejected"]}, "thorough_only": True},
+        {"pkg": "consensus", "harness": C10_VH, "run": "^VH_C10_ValidateV2$", "params": {"quick": {"mask": 67, "weight_uf": 1, "v1cur_fixed": 1, "tax_uf": 1, "spidx_uf": 1, "cflen": 1, "int_mode": 1, "cur_lift": 1}, "thorough": {"mask": 67, "weight_uf": 1, "v1cur_fixed": 1, "tax_uf": 1, "spidx_uf": 1, "cflen": 1, "int_mode": 1, "cur_lift": 1}},
+         "flags": {"quick": ["-timeout", "1000", "-maxpaths", "100000"], "thorough": ["-timeout", "1000", "-maxpaths", "400000"]},
+         "must_reach": {"VH_C10_ValidateV2": ["accepted", "applied", "rejected"]}, "thorough_only": True},
     ],
     "tv_runs": {"quick": 0, "thorough": 0},
-    "bounds": {"quick": "decoders: arbitrary input of N bytes, N=40 (policy-bearing objects 20, v1 Transaction/V1Block 100, V2Transaction 24); every loop unwound to completion (path/loop budgets are unwinding assertions); allocation per site <= max(N,255) elements",
+    "bounds": {"quick": "validators: transaction shapes with the component groups listed in evidence.coverage.runs (1 element per populated component; v1 masks 643/519/769/16, v2 masks 3/12/16/32/128/769), fully symbolic contents, state, network parameters and supplement; decoders: arbitrary input of N bytes, N=40 (policy-bearing objects 20, v1 Transaction/V1Block 100, V2Transaction 24); every loop unwound to completion (path/loop budgets are unwinding assertions); allocation per site <= max(N,255) elements",
                "thorough": "N=64 / 26 / 140 / 40"},
     "outside": ["inputs longer than N", "JSON/text Unmarshal entry points (see C20)"],
     "stubs": ["fmt.Errorf/Sprintf: opaque values (formatting code not executed)"],
@@ -99,7 +151,7 @@ PROPS["C12"] = {
          "tv_harnesses": ["VH_C12_V2_ID_SameShape", "VH_C12_DerivedIDs", "VH_C12_V2_ID_ClaimAddress"]},
         {"pkg": "consensus", "harness": ["harness/c12/c12_cons.go", "harness/common/cons_support.go"], "run": "^VH_C12_",
          "params": {"quick": {"n": 1}, "thorough": {"n": 2}},
-         "must_reach": {"VH_C12_V2SigHashes": ["end"], "VH_C12_V1WholeSigHash": ["cross-era", "same-era"], "VH_C12_V2Commitment": ["end"]},
+         "must_reach": {"VH_C12_V2SigHashes": ["end"], "VH_C12_V1WholeSigHash": ["cross-era", "same-era"], "VH_C12_V2Commitment": ["end"], "VH_C12_V1PartialSigHash": ["cross-era", "same-era"]},
          "tv_harnesses": ["VH_C12_V2SigHashes", "VH_C12_V1WholeSigHash"]},
         {"pkg": "types", "harness": C12_SUPPORT, "run": "^VH_C12_V2_ID_(SameShape|AdjacentShape)$", "params": {"thorough": {"n": 2}}, "thorough_only": True},
     ],
